@@ -432,17 +432,18 @@ def breadLoop (decodes : Bytes → Bool) (closed : Bool) :
         if n = 0 then (c1, rq, .error .noByteToRead)
         else breadLoop decodes closed fuel { c1 with front := c1.front.fill (rq.take n) } (rq.drop n)
 
-/-- the flush loop of `write_message_blocking`: any error of `sock.write`
-    (here: the schedule is exhausted, e.g. a send timeout) ends it with `Ok(())`,
-    leaving the remainder in the back buffer -/
-def bwriteLoop : List Nat → Chan → Bytes → Chan × Bytes
+/-- the flush loop of `write_message_blocking` (after fix 02dfc8c): EINTR is
+    retried (not an event of the schedule), a send timeout / would-block (the
+    schedule is exhausted) ends it with `Err(Write)` and keeps the remainder in
+    the back buffer; `true` = everything was handed to the kernel -/
+def bwriteLoop : List Nat → Chan → Bytes → Chan × Bytes × Bool
   | sched, c, acc =>
-    if c.back.availData = 0 then (c, acc)
+    if c.back.availData = 0 then (c, acc, true)
     else
       match sched with
-      | [] => (c, acc)
+      | [] => (c, acc, false)
       | k :: rest =>
-        if k = 0 then (c, acc)
+        if k = 0 then (c, acc, false)
         else
           let n := min k c.back.availData
           bwriteLoop rest { c with back := c.back.consume n } (acc ++ c.back.data.take n)
@@ -464,8 +465,8 @@ def xstep (decodes : Bytes → Bool) (s : Sys) : XOp → Sys × Out
     match s.w.writeDelimited p with
     | (w1, .error e) => ({ s with w := w1 }, .err e)
     | (w1, .ok ()) =>
-      let (w2, acc) := bwriteLoop sched w1 []
-      ({ s with w := w2, wire := s.wire ++ acc }, .unit)
+      let r := bwriteLoop sched w1 []
+      ({ s with w := r.1, wire := s.wire ++ r.2.1 }, if r.2.2 then .unit else .err .write)
 
 def xrun (decodes : Bytes → Bool) : Sys → List XOp → Sys × List Out
   | s, [] => (s, [])
